@@ -34,6 +34,11 @@ impl From<usize> for J {
         J::Int(b as i64)
     }
 }
+impl From<i32> for J {
+    fn from(b: i32) -> J {
+        J::Int(b as i64)
+    }
+}
 impl From<u32> for J {
     fn from(b: u32) -> J {
         J::Int(b as i64)
